@@ -259,3 +259,16 @@ func OldPrevoteWhileLocked(prev, cur TraceEntry) bool {
 	fmt.Sscan(ansField(prev.Ans, "r"), &r)
 	return ansField(cur.Ev, "h") == ansField(prev.Ans, "h") && vr <= lr && lr < r
 }
+
+// FutureTimeout: the entry is a timeout for a round above the node's round before the step.  The node theorems assume this
+// never happens (WellTimed: the ticker fires only what the node scheduled); the generator counts it to show the assumption
+// holds on every sampled schedule.
+func FutureTimeout(prev, cur TraceEntry) bool {
+	if cur.Kind() != "timeout" {
+		return false
+	}
+	var tr, r int
+	fmt.Sscan(ansField(cur.Ev, "r"), &tr)
+	fmt.Sscan(ansField(prev.Ans, "r"), &r)
+	return ansField(cur.Ev, "h") == ansField(prev.Ans, "h") && tr > r
+}
